@@ -32,13 +32,43 @@ fn source(c: &Case) -> String {
     }
 }
 
+/// 20-90 statements over two names, most of them reported by BOTH passes on the same line (a constant assignment
+/// to the variable mentioned last): reports of 30-150 diagnostics with many same-line ties, where an unstable or
+/// differently keyed sort shows
+fn long_report(t: &mut Tape) -> Program {
+    let names = engine_core::gen::names::distinct(t, 2);
+    let n = 20 + t.pick(71);
+    let mut stmts: Vec<Stmt> = vec![];
+    for _ in 0..n {
+        let x = &names[if t.chance(1, 5) { 1 } else { 0 }];
+        let k = num(t.pick(12) as f64);
+        let st = match t.weighted(&[30, 25, 15, 10, 10, 10]) {
+            0 => put(k, x),
+            1 => Stmt::Assign { dest: Lhs::Ident(Ident::Name(x.clone())), value: vec![k], op: None },
+            2 => say(var(x)),
+            3 => Stmt::Push { array: pvar(x), value: Some(PushRhs::List(vec![k])) },
+            4 => say(bin(BinOp::Plus, var(x), var(x))),
+            _ => put(strlit("s"), x),
+        };
+        stmts.push(st);
+    }
+    if t.chance(1, 3) {
+        // part of it inside a block, part in a second top-level block
+        let tail = stmts.split_off(stmts.len() / 2);
+        let inner = stmts.split_off(stmts.len() / 2);
+        stmts.push(Stmt::If { cond: var(&names[0]), then: inner, els: None });
+        return Program { blocks: vec![stmts, tail] };
+    }
+    Program::single(stmts)
+}
+
 impl Prop for C19 {
     type Case = Case;
     fn id(&self) -> &'static str {
         "C19"
     }
     fn rule(&self) -> String {
-        "parsed programs from four sources: grammar-generated programs over a pool of three names (many consecutive mentions: call names, arguments, parameters, subscripts, list operands, function definitions), \
+        "parsed programs from five sources: long programs of 20-90 statements most of which both passes report on the same line (reports of 30-150 diagnostics with many ties), grammar-generated programs over a pool of three names (many consecutive mentions: call names, arguments, parameters, subscripts, list operands, function definitions), \
          the constant-assignment generator (many reports on shared lines), wild crash-test programs, and token-level mutations of the repository's test programs that still parse. Checked: no panic; the program's Debug text is \
          unchanged by linting; the merged report equals the stable sort by line of (constant-assignment pass alone ++ repeated-identifier pass alone); the repeated-identifier reports equal an independent recomputation \
          over the tree in traversal order (previous mention, exact spelling, callee names never reported but remembered), with line and text. \
@@ -58,7 +88,8 @@ impl Prop for C19 {
     }
     fn generate(&self, t: &mut Tape) -> Case {
         let spelling = super::c02::take_spelling(t, 30);
-        match t.weighted(&[45, 25, 15, 15]) {
+        match t.weighted(&[42, 23, 15, 14, 6]) {
+            4 => Case::Prog { prog: long_report(t), spelling: spelling.into_iter().take(8).collect() },
             0 => {
                 let mut g = SynGen::new(t, SynCfg { name_pool: 3, ..SynCfg::default() });
                 g.funcs = g.names.clone();
@@ -159,12 +190,14 @@ impl Prop for C19 {
             boring.iter().any(|b| missed.iter().any(|m| m.line == b.line)),
             "tie_between_passes",
         );
+        add(all.len() >= 33 && boring.iter().any(|b| missed.iter().any(|m| m.line == b.line)), "report_of_33_or_more_with_ties");
+        add(all.len() >= 100, "report_of_100_or_more");
         o
     }
     fn sample(&self, c: &Case) -> Value {
         json!({ "src": source(c) })
     }
     fn expected_labels(&self) -> Vec<String> {
-        ["repeat_reported", "call_name_mention", "both_passes_report", "several_reports_on_one_line", "no_reports", "text_mutation", "tie_between_passes"].iter().map(|s| s.to_string()).collect()
+        ["repeat_reported", "call_name_mention", "both_passes_report", "several_reports_on_one_line", "no_reports", "text_mutation", "tie_between_passes", "report_of_33_or_more_with_ties", "report_of_100_or_more"].iter().map(|s| s.to_string()).collect()
     }
 }
